@@ -471,7 +471,12 @@ func (fr *Frame) value(x ssa.Value) Val {
 		pt := x.Type().Underlying().(*types.Pointer).Elem()
 		name := "G:" + x.Pkg.Pkg.Name() + "." + x.Name()
 		if kindOf(pt) == KStruct {
-			encFail("global struct variable %s not supported", name)
+			// a package-level struct variable is an object at a fixed (old) reference
+			g := fr.ctx.declare("gobj@"+x.Pkg.Pkg.Name()+"."+x.Name(), "Int")
+			fr.factOnce(and(lt("0", g), lt(g, entryNxt)))
+			fr.v.oldRefs[g] = true
+			fr.v.knownNonNilGlobal(g)
+			return Val{K: KRef, T: x.Type(), A: g}
 		}
 		return Val{K: KLoc, T: x.Type(), Loc: &Loc{Comp: name, T: pt}}
 	case *ssa.Function:
@@ -733,7 +738,7 @@ func (fr *Frame) nilCheck(ins ssa.Instruction, ref Term, reach Term) {
 	if b, ok := fr.nonNil[ref]; ok && (b == fr.cur || b.Dominates(fr.cur)) {
 		return
 	}
-	if fr.v.knownNonNil[ref] {
+	if fr.v.knownNonNil[ref] || fr.v.nonNilGlobals[ref] {
 		return
 	}
 	fr.nonNil[ref] = fr.cur
@@ -1304,3 +1309,5 @@ type storeRec struct {
 	ref  Term
 	row  Term
 }
+
+func (v *Verifier) knownNonNilGlobal(g Term) { v.nonNilGlobals[g] = true }
